@@ -247,9 +247,14 @@ fn gen_data(rng: &mut Rng) -> String {
     if items.is_empty() { "-".into() } else { items.join(",") }
 }
 
-fn gen_case(rng: &mut Rng) -> String {
-    let ntypes = if rng.chance(1, 3) { 1 } else { rng.range(2, NTYPES) };
-    let allow_not = ntypes == 1; // `!(…)` over a missing field is true: cross-type matches are kept out of multi-type cases
+fn gen_case(rng: &mut Rng) -> String { gen_case_with(rng, false) }
+
+/// `neg` = family "negated rules on a multi-type store": 2–3 fact types, rules negated at the top, a fact of every type
+/// inserted first.  A negated condition is vacuously true on a fact of a foreign type (all its fields are missing): before
+/// fix-C06c the re-propagation inside `fire_all` matched such a rule against facts of the other types (F-C06c).
+fn gen_case_with(rng: &mut Rng, neg: bool) -> String {
+    let ntypes = if neg { rng.range(2, NTYPES) } else if rng.chance(1, 3) { 1 } else { rng.range(2, NTYPES) };
+    let allow_not = true;
     let single = rng.chance(1, 2); // at most one live fact per type (deterministic histories)
     let nrules = rng.range(1, 3) as usize;
     let mut prios: Vec<i64> = vec![-5, 0, 1, 7, 20];
@@ -267,13 +272,22 @@ fn gen_case(rng: &mut Rng) -> String {
             }
         };
         let nl = if quiet || !rng.chance(1, 8) { 1 } else { 0 };
-        rules.push(format!("{}:{}:{}:{}:{}", ty, prios[i], nl, gen_node(rng, ty, 2, allow_not, ntypes), action));
+        let mut node = gen_node(rng, ty, 2, allow_not, ntypes);
+        if neg && (i == 0 || rng.chance(1, 2)) { node = format!("!({})", gen_node(rng, ty, 1, allow_not, ntypes)); }
+        rules.push(format!("{}:{}:{}:{}:{}", ty, prios[i], nl, node, action));
     }
     let nops = rng.range(2, 12) as usize;
     let mut ops = Vec::new();
     let mut inserted = 0u64;
     let mut live: Vec<(u64, u64)> = Vec::new(); // (handle, type), as far as the generator can tell
     let rule_types: Vec<u64> = rules.iter().map(|r: &String| r.split(':').next().unwrap().parse().unwrap()).collect();
+    if neg {
+        for ty in 0..ntypes {
+            inserted += 1;
+            live.push((inserted, ty));
+            ops.push(format!("I{}:{}", ty, gen_data(rng)));
+        }
+    }
     for opi in 0..nops {
         let k = if opi == 0 && rng.chance(3, 4) { 0 } else { rng.below(11) };
         if k < 3 && inserted < 6 {
@@ -308,8 +322,40 @@ fn gen_case(rng: &mut Rng) -> String {
     format!("{} {}", rules.join("/"), ops.join(" "))
 }
 
+/// family "many stale / duplicate activations" (F-C06b): every insert / update re-creates the activations of ALL matching
+/// facts of the type, so a few dozen updates on 3–6 facts put more than 1000 activations of the high-salience rules into the
+/// agenda; then every fact is made to falsify those rules (updated, or retracted and replaced).  The stale activations are
+/// popped first (higher salience / older); before fix-C06b each of them was counted against `max_iterations` and the
+/// low-salience rule, which the live facts satisfy, never fired.  All rules are quiet and no-loop: the exactness clause applies.
+fn gen_stale_case(rng: &mut Rng) -> String {
+    let k = if rng.chance(1, 4) { 1 } else { rng.range(3, 6) };          // facts (k = 1: a D1 history, compared with the model in full)
+    let nh = rng.range(2, 4);                                             // high-salience rules, true for f0 = 25, false for f0 = 3
+    let highs = ["A.0.0.gt.i18", "A.0.0.ge.i18", "&(A.0.0.gt.i15,A.0.0.ne.i3)", "+(A.0.0.gt.i20,A.0.0.eq.i25)"];
+    let mut rules: Vec<String> = (0..nh as usize).map(|i| format!("0:{}:1:{}:-", [20, 7, 5, 3][i], highs[i])).collect();
+    rules.push(format!("0:{}:1:{}:-", -5, *rng.pick(&["A.0.0.lt.i100", "A.0.0.le.i3", "!(A.0.0.gt.i18)"])));
+    let n = 1000 / (k * nh) + rng.range(2, 8);                            // updates: n * k * nh > 1000 stale activations
+    let mut ops: Vec<String> = (0..k).map(|_| "I0:0=i25".to_string()).collect();
+    if rng.chance(1, 3) { ops.push("F".into()); ops.push("Z".into()); }
+    for _ in 0..n {
+        ops.push(format!("U{}:0=i25,1=i{}", rng.range(1, k), rng.below(4)));
+    }
+    if rng.chance(1, 2) {
+        for h in 1..=k { ops.push(format!("U{}:0=i3", h)); }
+    } else {
+        for h in 1..=k { ops.push(format!("X{}", h)); }
+        for _ in 0..k { ops.push("I0:0=i3".to_string()); }
+    }
+    ops.push("F".into());
+    if rng.chance(1, 2) { ops.push("Z".into()); ops.push(format!("U{}:0=i25", if ops.iter().any(|o| o.starts_with('X')) { k + 1 } else { 1 })); ops.push("F".into()); }
+    format!("{} {}", rules.join("/"), ops.join(" "))
+}
+
 fn gen(rng: &mut Rng, n: usize, _tier: &str) -> Vec<String> {
-    (0..n).map(|_| gen_case(rng)).collect()
+    (0..n).map(|i| match i % 50 {
+        7 => gen_stale_case(rng),
+        3 | 13 | 23 | 33 | 43 => gen_case_with(rng, true),
+        _ => gen_case(rng),
+    }).collect()
 }
 
 fn shrink(case: &str) -> Vec<String> {
